@@ -1,5 +1,6 @@
 import TLVerif.Generated.AlgoFacts
 import TLVerif.Algo.AvlLemmas
+import TLVerif.Algo.CircularLemmas
 /-!
 # C41 — Ordered tree map and circular slice match reference containers
 
@@ -185,5 +186,148 @@ theorem avl_strict_iff : AvlStrictAlways newLeafHeight ↔ newLeafHeight = 1 := 
 /-- The invariant is satisfiable by non-trivial states (hypotheses are not vacuous). -/
 example : ∃ t, TreeMap.run newLeafHeight TreeMap.empty [.set 5 1, .set 3 2, .set 9 3, .set 4 4, .delete 3] = some t ∧
     t.abs = [(4, 4), (5, 1), (9, 3)] := ⟨_, rfl, rfl⟩
+
+
+/-! ## Circular slice
+
+Reference container: a FIFO list (`CS.abs`, front first); for histories a pair of lists, because `Swap` and
+`DeepAssign` take a second slice. Invariant `CS.Inv`: `0 ≤ read_pos ≤ write_pos ≤ read_pos + cap`,
+`read_pos < cap` (or everything zero), and every cell outside the live window holds the empty value. -/
+
+theorem circ_empty : CS.Inv CS.empty ∧ CS.abs CS.empty = [] := CS.empty_inv
+
+/-- `PushBack` never panics, appends at the back, never shrinks the capacity. -/
+theorem circ_push_refines (s : CS) (hi : CS.Inv s) (x : Nat) :
+    ∃ s', s.pushBack x = some s' ∧ CS.Inv s' ∧ s'.abs = s.abs ++ [x] ∧ s.cap ≤ s'.cap := by
+  obtain ⟨els, rp, wp⟩ := s
+  obtain ⟨r, w, rfl, rfl, _⟩ := hi.nat
+  obtain ⟨s', e, i', a', l'⟩ := CS.pushBack_spec els r w hi x
+  exact ⟨s', e, i', a', by simp only [CS.cap]; omega⟩
+
+/-- `PopFront` panics exactly on the empty queue; otherwise returns the oldest element and removes it. -/
+theorem circ_pop_refines (s : CS) (hi : CS.Inv s) :
+    (s.abs = [] → s.popFront = none) ∧
+    (∀ x xs, s.abs = x :: xs → ∃ s', s.popFront = some (x, s') ∧ CS.Inv s' ∧ s'.abs = xs ∧ s'.cap = s.cap) := by
+  obtain ⟨els, rp, wp⟩ := s
+  obtain ⟨r, w, rfl, rfl, _⟩ := hi.nat
+  obtain ⟨h1, h2⟩ := CS.popFront_spec els r w hi
+  refine ⟨h1, fun x xs hx => ?_⟩
+  obtain ⟨s', e, i', a', l'⟩ := h2 x xs hx
+  exact ⟨s', e, i', a', by simp only [CS.cap]; omega⟩
+
+/-- `Front` returns the oldest element and panics exactly on the empty queue. -/
+theorem circ_front_refines (s : CS) (hi : CS.Inv s) : s.front = s.abs.head? := CS.front_spec s hi
+
+/-- `Index`/`IndexRef`: element `pos` of the queue for `0 ≤ pos < Len()`; a negative position panics; a position
+beyond the end panics or yields the empty value (never a live or stale element). -/
+theorem circ_index_refines (s : CS) (hi : CS.Inv s) (pos : Int) :
+    (pos < 0 → s.index pos = none) ∧
+    (0 ≤ pos → pos < s.abs.length → s.index pos = s.abs[pos.toNat]?) ∧
+    (s.abs.length ≤ pos → s.index pos = none ∨ s.index pos = some 0) := CS.index_spec s hi pos
+
+/-- `Len` is the queue length, `Cap` bounds it. -/
+theorem circ_len_cap (s : CS) (hi : CS.Inv s) : s.len = s.abs.length ∧ (s.abs.length : Int) ≤ s.cap := by
+  obtain ⟨els, rp, wp⟩ := s
+  obtain ⟨r, w, rfl, rfl, _⟩ := hi.nat
+  simp only [CS.len, CS.cap, CS.abs_length]
+  omega
+
+/-- `Slices` never panics and its two parts concatenated are the queue content. -/
+theorem circ_slices_refines (s : CS) (hi : CS.Inv s) :
+    ∃ s1 s2, s.slices = some (s1, s2) ∧ s1 ++ s2 = s.abs := by
+  obtain ⟨els, rp, wp⟩ := s
+  obtain ⟨r, w, rfl, rfl, _⟩ := hi.nat
+  obtain ⟨s1, s2, e, h, _⟩ := CS.slices_spec els r w hi
+  exact ⟨s1, s2, e, h⟩
+
+/-- `Reserve n` never panics, keeps the content, and makes the capacity `max cap n` (it never shrinks). -/
+theorem circ_reserve_refines (s : CS) (hi : CS.Inv s) (n : Int) :
+    ∃ s', s.reserve n = some s' ∧ CS.Inv s' ∧ s'.abs = s.abs ∧ s'.cap = max s.cap n := by
+  obtain ⟨els, rp, wp⟩ := s
+  obtain ⟨r, w, rfl, rfl, _⟩ := hi.nat
+  obtain ⟨s', e, i', a', h1, h2⟩ := CS.reserve_spec els r w hi n
+  refine ⟨s', e, i', a', ?_⟩
+  simp only [CS.cap]
+  by_cases hn : n ≤ els.length
+  · rw [h1 hn]; simp only; omega
+  · obtain ⟨hl, _, _⟩ := h2 (by omega)
+    rw [hl]; omega
+
+/-- `Clear` never panics, empties the queue and keeps the capacity. -/
+theorem circ_clear_refines (s : CS) (hi : CS.Inv s) :
+    ∃ s', s.clear = some s' ∧ CS.Inv s' ∧ s'.abs = [] ∧ s'.cap = s.cap := by
+  obtain ⟨els, rp, wp⟩ := s
+  obtain ⟨r, w, rfl, rfl, _⟩ := hi.nat
+  obtain ⟨s', e, i', a', l'⟩ := CS.clear_spec els r w hi
+  exact ⟨s', e, i', a', by simp only [CS.cap]; omega⟩
+
+/-- `Swap` exchanges the two queues; `DeepAssign` makes the receiver a copy of the argument. -/
+theorem circ_swap_deepAssign (s o : CS) :
+    ((CS.swap s o).1.abs = o.abs ∧ (CS.swap s o).2.abs = s.abs) ∧ (CS.deepAssign s o).abs = o.abs ∧
+    (CS.deepAssign s o).cap = o.cap := ⟨⟨rfl, rfl⟩, rfl, rfl⟩
+
+/-- One step of any exported method on a pair of slices refines the pair-of-lists reference: invariants kept,
+contents as in the reference, observation allowed by the reference. -/
+theorem circ_step_refines (s o : CS) (hs : CS.Inv s) (ho : CS.Inv o) (op : QOp) :
+    CS.Inv (CS.apply (s, o) op).1.1 ∧ CS.Inv (CS.apply (s, o) op).1.2 ∧
+    ((CS.apply (s, o) op).1.1.abs, (CS.apply (s, o) op).1.2.abs) = specQ (s.abs, o.abs) op ∧
+    QObsOk s.abs op (CS.apply (s, o) op).2 := CS.apply_refines s o hs ho op
+
+/-- Any history of exported calls on two initially empty slices: invariants hold at the end, the contents are those
+of the reference after the same history, and every observation along the way is allowed by the reference. -/
+theorem circ_history_refines (ops : List QOp) :
+    CS.Inv (CS.run (CS.empty, CS.empty) ops).1.1 ∧ CS.Inv (CS.run (CS.empty, CS.empty) ops).1.2 ∧
+    ((CS.run (CS.empty, CS.empty) ops).1.1.abs, (CS.run (CS.empty, CS.empty) ops).1.2.abs) = ops.foldl specQ ([], []) ∧
+    ObsListOk ([], []) ops (CS.run (CS.empty, CS.empty) ops).2 :=
+  CS.run_refines ops CS.empty CS.empty CS.empty_inv.1 CS.empty_inv.1
+
+/-- Panics only on the documented misuse: `PopFront`/`Front` on an empty queue, `Index` outside `[0, Len())`. -/
+theorem circ_panics_only_on_misuse (s o : CS) (hs : CS.Inv s) (ho : CS.Inv o) (op : QOp)
+    (hp : (CS.apply (s, o) op).2 = .panic) :
+    (op = .pop ∧ s.abs = []) ∨ (op = .front ∧ s.abs = []) ∨
+    (∃ pos, op = .index pos ∧ (pos < 0 ∨ (s.abs.length : Int) ≤ pos)) := by
+  obtain ⟨_, _, _, h⟩ := CS.apply_refines s o hs ho op
+  rw [hp] at h
+  cases op with
+  | push x => cases h
+  | reserve n => cases h
+  | clear => cases h
+  | swap => cases h
+  | deepAssign => cases h
+  | len => cases h
+  | cap => obtain ⟨c, hc, _⟩ := h; cases hc
+  | slices => obtain ⟨a, b, hc, _⟩ := h; cases hc
+  | pop =>
+    left; refine ⟨rfl, ?_⟩
+    simp only [QObsOk] at h
+    cases hh : s.abs with
+    | nil => rfl
+    | cons x xs => rw [hh] at h; simp at h
+  | front =>
+    right; left; refine ⟨rfl, ?_⟩
+    simp only [QObsOk] at h
+    cases hh : s.abs with
+    | nil => rfl
+    | cons x xs => rw [hh] at h; simp at h
+  | index pos =>
+    right; right; refine ⟨pos, rfl, ?_⟩
+    obtain ⟨_, h2, _⟩ := h
+    by_cases h0 : pos < 0
+    · exact Or.inl h0
+    · right
+      by_cases hl : pos < s.abs.length
+      · obtain ⟨x, _, hx⟩ := h2 (by omega) hl
+        cases hx
+      · omega
+
+/-- Capacity: `Reserve n` makes it at least `n`; no method of one slice shrinks its capacity or touches the other
+slice (only `Swap`/`DeepAssign` exchange/copy whole slices). -/
+theorem circ_capacity (s o : CS) (hs : CS.Inv s) (op : QOp) (h1 : op ≠ .swap) (h2 : op ≠ .deepAssign) :
+    s.cap ≤ (CS.apply (s, o) op).1.1.cap ∧ (CS.apply (s, o) op).1.2 = o ∧
+    (∀ n, op = .reserve n → n ≤ (CS.apply (s, o) op).1.1.cap) := CS.apply_cap s o hs op h1 h2
+
+/-- The invariant and the wrap-around are exercised by a non-trivial state (hypotheses are not vacuous). -/
+example : (CS.run (CS.empty, CS.empty) [.reserve 3, .push 1, .push 2, .push 3, .pop, .pop, .push 4, .push 5]).1.1 =
+    ⟨[4, 5, 3], 2, 5⟩ ∧ CS.abs ⟨[4, 5, 3], 2, 5⟩ = [3, 4, 5] := by decide
 
 end TLVerif.Props.C41
